@@ -2,7 +2,8 @@
 
    Observation lines (harness/internal/c15):
      (wf   PLUGIN SIG REAL)         REAL = 1 if the derived function type-checks, else 0
-     (call PLUGIN SIG ARGS REAL)    REAL = (ret (EVENT ...) (RESULT ...)), EVENT = (LEVEL (ARG ...))
+     (call PLUGIN SIG ARGS REAL)    REAL = (ret (EVENT ...) (RESULT ...)), EVENT = (LEVEL (ARG ...)),
+                                    or the symbol panic (never equal to a prediction)
    PLUGIN = curry | flip | apply | uncurry | rt (Uncurry of Curry) | tuple
    SIG    = (sig (PARAM ...) (RESULT ...) VARIADIC)          PARAM/RESULT = (NAME TYPE) | (TYPE)
           | (csig (PARAM ...) (PARAM ...) (RESULT ...) VARIADIC)    uncurry: outer, inner
